@@ -400,6 +400,12 @@ pub struct SessCase {
     /// which the FIRST comes from the other master address (foreign <-> configured); 3 = the SECOND does
     #[serde(default)]
     pub split: u8,
+    /// 0 = a stream transport without socket addresses; k >= 1 = a datagram outstation whose configured remote endpoint is
+    /// the socket address of peer 9: the fragment arrives from peer 9 (k odd) or from another socket address, peer 3 (k
+    /// even). What is sent in reply goes to the socket address the request came from; unsolicited responses go to the
+    /// configured endpoint
+    #[serde(default)]
+    pub peer: u8,
 }
 
 fn fragment_of(kind: u8, seq: u8, outstanding: Option<(u8, bool)>) -> (Vec<u8>, &'static str) {
@@ -411,8 +417,14 @@ fn fragment_of(kind: u8, seq: u8, outstanding: Option<(u8, bool)>) -> (Vec<u8>, 
             None => (Fragment::confirm(seq, false).encode(), "stray CONFIRM"),
         },
         13 => match outstanding {
-            Some((s, uns)) => (Fragment::confirm(s, !uns).encode(), "CONFIRM with the other UNS bit"),
-            None => (Fragment::confirm(seq, true).encode(), "stray unsolicited CONFIRM"),
+            Some((s, uns)) => (
+                Fragment::confirm(s, !uns).encode(),
+                "CONFIRM with the other UNS bit",
+            ),
+            None => (
+                Fragment::confirm(seq, true).encode(),
+                "stray unsolicited CONFIRM",
+            ),
         },
         0 => (
             Fragment::request(seq, func::READ, ra::h_all(60, 1)).encode(),
@@ -486,17 +498,23 @@ impl Prop for Sess {
             0u8..6,
             0u8..14,
             0u8..16,
-            prop_oneof![4 => Just(0u8), 1 => Just(1u8), 2 => Just(2u8), 2 => Just(3u8)],
+            (
+                prop_oneof![4 => Just(0u8), 1 => Just(1u8), 2 => Just(2u8), 2 => Just(3u8)],
+                prop_oneof![3 => Just(0u8), 1 => Just(1u8), 2 => Just(2u8)],
+            ),
         )
             .prop_map(
-                |(state, any_master, broadcast_enabled, origin, kind, seq, split)| SessCase {
-                    state,
-                    any_master,
-                    broadcast_enabled,
-                    origin,
-                    kind,
-                    seq,
-                    split,
+                |(state, any_master, broadcast_enabled, origin, kind, seq, (split, peer))| {
+                    SessCase {
+                        state,
+                        any_master,
+                        broadcast_enabled,
+                        origin,
+                        kind,
+                        seq,
+                        split,
+                        peer,
+                    }
                 },
             )
             .boxed()
@@ -515,6 +533,14 @@ async fn run_sess(case: &SessCase) -> CaseOut {
     cfg.broadcast = case.broadcast_enabled;
     cfg.confirm_timeout_ms = 100;
     cfg.keep_alive_ms = None;
+    if case.peer != 0 {
+        cfg.udp_remote = Some(9);
+    }
+    let from_peer: Option<u8> = match case.peer {
+        0 => None,
+        k if k % 2 == 1 => Some(9),
+        _ => Some(3),
+    };
     let mut beh = AppBehaviour::default();
     beh.cold_restart = Some(crate::outstation::RestartDelay::Seconds(1));
     let mut rig = OutRig::start(cfg, beh).await;
@@ -571,14 +597,12 @@ async fn run_sess(case: &SessCase) -> CaseOut {
         _ => {}
     }
     // the response that is awaiting its confirmation, if any: (sequence number, unsolicited)
-    let outstanding: Option<(u8, bool)> = rig
-        .take_tx()
-        .iter()
-        .rev()
-        .find_map(|t| match t {
-            Tx::Fragment { bytes, .. } if bytes.len() >= 2 && bytes[0] & 0x20 != 0 => Some((bytes[0] & 0x0F, bytes[1] == func::UNSOLICITED_RESPONSE)),
-            _ => None,
-        });
+    let outstanding: Option<(u8, bool)> = rig.take_tx().iter().rev().find_map(|t| match t {
+        Tx::Fragment { bytes, .. } if bytes.len() >= 2 && bytes[0] & 0x20 != 0 => {
+            Some((bytes[0] & 0x0F, bytes[1] == func::UNSOLICITED_RESPONSE))
+        }
+        _ => None,
+    });
     let _ = rig.shared.take_log();
     out.label(format!("state:{}", case.state));
 
@@ -621,15 +645,66 @@ async fn run_sess(case: &SessCase) -> CaseOut {
         p2.extend_from_slice(&frag[cut..]);
         let mut b = rl::encode(0xC4, dst, s1, &p1);
         b.extend(rl::encode(0xC4, dst, s2, &p2));
-        out.label(if mixed { "segments_from_two_masters" } else { "two_segments" });
+        out.label(if mixed {
+            "segments_from_two_masters"
+        } else {
+            "two_segments"
+        });
         if mixed {
             out.nontrivial = true;
         }
         b
     };
-    rig.send_raw(&bytes);
+    match from_peer {
+        // (one datagram per link frame)
+        Some(k) => {
+            let mut rest = &bytes[..];
+            while let rl::TryFrame::Ok(_, n) = rl::try_frame(rest) {
+                rig.send_raw_from(&rest[..n], k);
+                rest = &rest[n..];
+                if rest.is_empty() {
+                    break;
+                }
+            }
+        }
+        None => rig.send_raw(&bytes),
+    }
     rig.settle().await;
     let tx = rig.take_tx();
+    if let Some(k) = from_peer {
+        out.label(if k == 9 {
+            "from_the_configured_socket_address"
+        } else {
+            "from_another_socket_address"
+        });
+        // where did every frame written in reaction go? replies (link-layer frames, solicited responses) to the socket
+        // address the request came from, unsolicited responses to the configured remote endpoint
+        let mut current_is_unsolicited = false;
+        for (raw, dest) in rig.last_writes.clone() {
+            if let rl::TryFrame::Ok(f, _) = rl::try_frame(&raw) {
+                if f.payload.len() >= 3 && f.payload[0] & 0x40 != 0 {
+                    current_is_unsolicited = f.payload[2] == func::UNSOLICITED_RESPONSE;
+                } else if f.payload.is_empty() {
+                    current_is_unsolicited = false;
+                }
+                let want = if current_is_unsolicited && !f.payload.is_empty() {
+                    9
+                } else {
+                    k
+                };
+                if dest != Some(want) {
+                    out.fail(
+                        Fail::new(
+                            "reply-to-wrong-socket-address",
+                            format!("{what} arrived from socket address of peer {k} (configured remote endpoint: peer 9); a frame with control {:#04x} ({}) was written to {:?}", f.ctrl, if f.payload.is_empty() { "link layer only".to_string() } else if current_is_unsolicited { "unsolicited response".to_string() } else { "solicited response".to_string() }, dest),
+                        )
+                        .with_sig(format!("C07 reply-to-wrong-socket-address unsolicited={current_is_unsolicited}")),
+                    );
+                    break;
+                }
+            }
+        }
+    }
     let log = rig.shared.take_log();
     let app_frags: Vec<(u16, Vec<u8>)> = tx
         .iter()
